@@ -164,6 +164,7 @@ pub fn generate(rng: &mut Rng, property: &str, deep: bool) -> BScn {
     let p_hitch = on(rng, 0.1);
     let p_suspend = if extreme { on(rng, 0.05) } else { on(rng, 0.01) };
     let p_boundary = on(rng, 0.2);
+    let p_run_out = on(rng, 0.04);
     let p_burst = on(rng, 0.2);
     let p_dup = on(rng, 0.2);
     let p_after_end = on(rng, 0.6);
@@ -312,6 +313,17 @@ pub fn generate(rng: &mut Rng, property: &str, deep: bool) -> BScn {
                             fault = "land_on_boundary";
                         }
                     }
+                }
+            }
+        }
+        if delta.is_none() && rng.chance(p_run_out) {
+            // one frame that carries the position just past the total duration, however long
+            // that is (decades for the largest repeat counts)
+            if let Some(t) = total {
+                let remaining = t - pos_ns as f64 / 1e9;
+                if remaining > 0.0 && remaining < 3.0e9 {
+                    delta = Some(((remaining * 1e9) as u64).saturating_add(period_ns));
+                    fault = "hitch";
                 }
             }
         }
